@@ -21,6 +21,17 @@ CLAIMED = {
             "TLA+ model checking (TLC) + model-generated replay + trace validation", "DESIGN.md 4/C09"),
 }
 
+CLAIMED["C13"] = ("TLC checks the five clauses of C13 as invariants on a transcription of MappingInfo::aggregate for every sequence of lines over the "
+            "model alphabet (bounded), and judges the real function's output on TLC-enumerated, driver-enumerated, random and live maps: the property is "
+            "evaluated on the observed output and the observed output must equal the model's fold (every merge decision).",
+            "Trusted: TLC, procfs-core's maps parser (shared with the code under test), the harness's own line parser and rank projection.",
+            "TLA+ model checking (TLC) + model-generated replay + trace validation", "DESIGN.md 4/C13")
+CLAIMED["C12"] = ("TLC checks the direct classifier (C12) against the step-by-step model with pre-filter and caches for every triple of the small universe "
+            "and proves the pre-filter sound there; every TLC case is concretised with the real bucket size (aliasing classes preserved) and run, "
+            "plus random triples; the real output is judged word by word against the direct classifier and must match the model's decisions.",
+            "Trusted: TLC, the (bucket, offset) projection of 64-bit words, synthetic mappings installed in a PtraceDumper over a paused child.",
+            "TLA+ model checking (TLC) + model-generated replay + trace validation", "DESIGN.md 4/C12")
+
 NOT_YET = {
 }
 
